@@ -24,10 +24,16 @@ var cfgChanges = []string{
 	"to:1000000000:0", "to:0:1000000000", "to:1000000000:-5", "to:1000000000:2000000000",
 	"fbmc:5:-1", "fbmc:-1:0", "fbmc:0:1", "fbmc:0:-1",
 	"fo:0:1", "fo:1:0", "fc:0:1", "fc:1:0", "dis:0:1", "dis:1:0", "fbd:0:1", "fbd:1:0", "ii:0:1", "ii:1:0",
+	// the interrupt classifier: 0 = unset (nil), 1 = "always an interrupt", 2 = "never an interrupt"
+	"iei:1:0", "iei:0:2", "iei:2:0", "iei:2:1", "iei:1:2",
 }
 
 func (cfgScenario) Config(r *rand.Rand, small bool) string {
 	ch := cfgChanges[r.Intn(len(cfgChanges))]
+	if strings.HasPrefix(ch, "iei:") || strings.HasPrefix(ch, "ii:") {
+		// the classifier is consulted only for an error returned while the caller's context is done
+		return fmt.Sprintf("change=%s act=%c open=0 ctx=c", ch, "fc"[r.Intn(2)])
+	}
 	return fmt.Sprintf("change=%s act=%c open=%d ctx=%c", ch, "sfc"[r.Intn(3)], r.Intn(2)*r.Intn(2), "bc"[r.Intn(2)])
 }
 
@@ -66,6 +72,15 @@ func applyChange(conf *circuit.Config, name string, v int64) {
 		conf.Fallback.Disabled = v == 1
 	case "ii":
 		conf.Execution.IgnoreInterrupts = v == 1
+	case "iei":
+		switch v {
+		case 0:
+			conf.Execution.IsErrInterrupt = nil
+		case 1:
+			conf.Execution.IsErrInterrupt = func(error) bool { return true }
+		default:
+			conf.Execution.IsErrInterrupt = func(error) bool { return false }
+		}
 	}
 }
 
@@ -166,6 +181,9 @@ func (cfgScenario) Build(cfg string) ([]func(), func(*vsched.Sched) []string) {
 			}
 			if name == "to" && field(got, "ran") == "ran=true" && field(got, "deadline") != field(underOld, "deadline") && field(got, "deadline") != field(underNew, "deadline") {
 				problems = append(problems, fmt.Sprintf("C07: the run function of a call racing a Timeout change %d->%d saw %s: neither start+old nor start+new (old: %s, new: %s)", oldV, newV, field(got, "deadline"), field(underOld, "deadline"), field(underNew, "deadline")))
+			}
+			if field(got, "events") != field(underOld, "events") && field(got, "events") != field(underNew, "events") {
+				problems = append(problems, fmt.Sprintf("C05: a call racing %s %d->%d was reported as {%s}: neither what the old configuration yields {%s} nor the new one {%s}", name, oldV, newV, field(got, "events"), field(underOld, "events"), field(underNew, "events")))
 			}
 			return problems
 		}
